@@ -64,6 +64,8 @@ def lift(v):
     """z3 Real term of a Sym or a finite concrete number."""
     if isinstance(v, Sym):
         return v.e
+    if isinstance(v, z3.ArithRef):
+        return v
     if isinstance(v, rnp.ndarray) and v.ndim == 0:
         return lift(v.item())
     if isinstance(v, (bool, rnp.bool_)):
@@ -134,7 +136,7 @@ def assume(cond):
 
 
 def _branch_check(p, cond):
-    """feasibility of path /\ cond: incremental core first (fast, weak on nonlinear
+    """feasibility of path and cond: incremental core first (fast, weak on nonlinear
     arithmetic), then a fresh non-incremental solver (nlsat) when that is unknown."""
     p.solver.push()
     p.solver.add(cond)
@@ -355,6 +357,8 @@ class Sym:
     def _bin(self, o, f, neutral=None, absorbing=None, right=False):
         if isinstance(o, Sym):
             oe = o.e
+        elif isinstance(o, z3.ArithRef):
+            oe = o
         elif isinstance(o, (bool, rnp.bool_)):
             oe = z3.RealVal(int(o))
         elif isinstance(o, NUM):
@@ -433,6 +437,8 @@ class Sym:
     def _cmp(self, o, f, at_pinf, at_ninf):
         if isinstance(o, Sym):
             return SymBool(f(self.e, o.e))
+        if isinstance(o, z3.ArithRef):
+            return SymBool(f(self.e, o))
         if isinstance(o, rnp.ndarray):
             return NotImplemented
         c = _conc(o)
